@@ -1,5 +1,5 @@
 # C15 mutation self-tests: tools/with-mutation -e "python3 tools/c15-mutations.py <name>" -- ./check C15   (expects exit 1 + VIOLATION)
-# names: rewrite-descriptor detect-wrong-link print-all drop-additional first-bin composite-not-normalised select-all-from-buildpack-dir release-into-debug additional-as-main no-package-toml
+# names: rewrite-descriptor detect-wrong-link print-all drop-additional first-bin composite-not-normalised select-all-from-buildpack-dir release-into-debug additional-as-main no-package-toml root-precedence
 # (skip-wipe: -e "sed -i 's|let _ = fs::remove_dir_all(&buildpack_destination_dir);|// wipe skipped|' /repo/libcnb-cargo/src/package/command.rs")
 import sys
 name=sys.argv[1]
@@ -51,5 +51,26 @@ elif name=='no-package-toml':
         "[buildpack]\\nuri = \\".\\"\\n",
     )
     .map_err(PackageLibcnbBuildpackError::WritePackageDescriptor)''','''    Ok(())''')
+elif name=='root-precedence':
+    # workspace root wins over "the buildpack whose directory is the current directory" (differs when the root is itself a buildpack)
+    rep(CMD,'''        .find(|node| node.path == current_dir)
+        .map(|node| vec![node])
+        .or_else(|| {
+            current_dir.eq(&workspace_root_path).then(|| {
+                buildpack_dependency_graph
+                    .node_weights()
+                    .collect::<Vec<_>>()
+            })
+        })
+        .unwrap_or_default();''','''        .find(|node| node.path == current_dir && current_dir != workspace_root_path)
+        .map(|node| vec![node])
+        .or_else(|| {
+            current_dir.eq(&workspace_root_path).then(|| {
+                buildpack_dependency_graph
+                    .node_weights()
+                    .collect::<Vec<_>>()
+            })
+        })
+        .unwrap_or_default();''')
 else:
     raise SystemExit('unknown mutation')
